@@ -1379,6 +1379,10 @@ class UTPM(Ring, RawAlgorithmsMixIn):
 
         FIXME: theory tells us to check first coefficient if the zero'th coefficient is zero
         """
+        if numpy.iscomplexobj(self.data):
+            # |z| = sqrt(z * conj(z)) is real (numpy.absolute), the sign flip below applies to real data only
+            return self.__class__.sqrt(self.__class__.real(self * self.conjugate()))
+
         # check if zero order coeff is smaller than 0
         tmp = self.data[0] < 0
         retval = self.clone()
